@@ -26,13 +26,20 @@ def run(ck):
     cloudcheck.run_family(ck, "cloud-cleanup", 400 if quick else 8000, CLAUSE,
                           lambda c: c["features"].get("calls", 0) >= 3,
                           known_match=known_match if listed else None)
+    # directed: a cleanup between its listings, a writer adding a version and its snapshot, a second cleanup
+    cloudcheck.run_family(ck, "cloud-cleanup-writer", 150 if quick else 3000, CLAUSE + " [writer between a cleanup's listings]",
+                          lambda c: c["features"].get("calls", 0) >= 3,
+                          known_match=known_match if listed else None)
     cloudcheck.theorem_violation(ck, "C10", thm_ok)
     return ck.finish(
         "proof",
         "a sequential prefix builds a chain of 0-5 versions (60% created long ago) with snapshots at random "
         "positions; then 2-3 clients run cleanups, add-versions, get-child-versions and add-snapshots of "
         "arbitrary chain versions, interleaved at single requests / list pages; in a third of the cases a cleanup "
-        "stops (its request fails) after its k-th deletion; distinct = different schedules; non-trivial = at least "
+        "stops (its request fails) after its k-th deletion; plus directed schedules (a cleanup paused after 1-4 "
+        "requests, a writer adding a version and its snapshot, optionally a second whole cleanup, then the first goes "
+        "on); the audit also replays the store's request log: a snapshot of a chain version may only be deleted while "
+        "a snapshot of a later chain version is stored; distinct = different schedules; non-trivial = at least "
         "three calls",
         "Theorems C10_* cover the cleanup's decisions for every listing and an inductive invariant over all "
         "schedules with cleanup machines (retained versions, the cut behind a stored snapshot, losers never on "
